@@ -9,7 +9,9 @@ EXPLANATION = (
     "R2 the storing set_val's receiver is the destination (self; in like() a deep copy of the template), so C01's pipeline quantizes under the destination's modes; "
     "resize re-stores after every size write and refreshes metadata on every path (no fast path that skips re-quantization); R3 the routes do not write to "
     "their source object; R4 no subscript by an index that is None on that path (shape preservation); R5 re-scaled codes that may be fractional are not given an integer value type before rounding; __setitem__/constructor reach the normaliser's branch through "
-    "set_val (write-funnel rule); like=/template state is deep-copied (sequences of conversions do not leak modes). Residual: value-level agreement on inexact doubles.")
+    "set_val (write-funnel rule); like=/template state is deep-copied (sequences of conversions do not leak modes). Residual: value-level agreement on inexact doubles."
+    " Added after the third round of seeded changes: resize makes no cast of its own while re-scaling; the dtype-string reader/writer agreement (C12.R1/R2) and the element view's configuration (C17.R6) are included as conversion routes."
+)
 ASSUMPTIONS = ["a[None] inserts an axis (NumPy lemma)", "2**k with negative k is an exact dyadic double"]
 TRUSTED = ["CPython ast", "scale typing rules of DESIGN A6"]
 
